@@ -322,6 +322,37 @@ Definition ret_one (g : gv) : jobs :=
 (* no result: undefined; one: the value; several: an array of them *)
 Definition ret_values (l : list gv) : list jobs := map ret_one l.
 
+(* ---- re-entrancy: script code that runs while the arguments of a call are
+   being converted (toString of an object given for a string parameter, a
+   getter read while a map / struct / slice parameter is built) may call
+   bridged functions itself.  Every parameter carries one integer here (the
+   number, the id of the string, the value under the key / in the field, the
+   length).  The Go side logs each call when it happens. ---- *)
+Inductive rcall := RCall (f : Z) (args : list rarg)
+with rarg :=
+| RVal (v : Z)                          (* a plain value *)
+| RRe (inner : list rcall) (v : Z).     (* runs the inner calls, then yields v *)
+
+Definition rarg_val (a : rarg) : Z := match a with RVal v => v | RRe _ v => v end.
+
+(* the log of (function, received values): arguments are converted left to
+   right, each nested call completes (and is logged) before the conversion of
+   the argument that triggered it returns; the outer call is logged last, with
+   ITS OWN argument values *)
+Fixpoint ev_call (fuel : nat) (c : rcall) : list (Z * list Z) :=
+  match fuel with
+  | O => []
+  | S f =>
+      match c with
+      | RCall fn args =>
+          flat_map (fun a => match a with
+                             | RVal _ => []
+                             | RRe inner _ => flat_map (ev_call f) inner
+                             end) args
+          ++ [(fn, map rarg_val args)]
+      end
+  end.
+
 (* ---- structural equality of observations ---- *)
 Fixpoint gv_eqb (a b : gv) : bool :=
   match a, b with
